@@ -31,12 +31,15 @@ RULE = ("A: deterministic boundary grid (-1,0,len-1,len,cap,cap+1,2^31-1,2^31,2^
         "below the deferred function, re-panic, panic inside deferred functions, named results, Goexit, run in a non-main goroutine, "
         "13 run-time error kinds, statements that REALLY suspend the goroutine in bodies and deferred calls), three code-generation flavours (non-blocking, blocking helper, all functions blocking); "
         "non-trivial = at least one panic and one defer; distinct by (program, flavour)")
-TRUSTED = ["hand-written models coq/Model/C08_Guards.v and coq/Model/C08_Panic.v, tied by this correspondence",
+TRUSTED = ["hand-written models coq/Model/C08_Guards.v, coq/Model/C08_Guards2.v (phase 4: nil map store/read, nil struct pointer, $assertType) and coq/Model/C08_Panic.v, tied by this correspondence",
+           "phase 4: $assertType is driven on the real prelude with a stand-in for runtime.TypeAssertionError (the runtime package is not loaded); interface targets cover {}, {M}, {M,N} over five dynamic types; memoisation of implementedBy is C09's subject",
            "the JS call depth is modelled by an explicit frame counter; the real measurement (new Error().stack line count) is not modelled",
            "IEEE division of two integers below 2^32 truncated by >>0 equals Z.quot (value part of the QUO guard; exactness is C06's subject)",
            "blocking/resuming paths of $callDeferred ($curGoroutine.asleep, r.$blk) are not modelled in ImplPanic: a statement that really suspends is a no-op in both models, so the real suspension paths are checked differentially only (against native Go and against the models); foreign JavaScript exceptions are not modelled",
            "harness/js/c08_guards.js stub operands; harness/py/c08_gen.py Go printer and trace parser; native Go 1.23 as reference for the spec side"]
-ASSUMPTIONS = ["guard operands are integers produced by the compiler's %f formatting; comparisons are exact below 2^53 and order-preserving above",
+ASSUMPTIONS = ["phase 4 part B theorems (stack-shape invariant, defer_lifo_exactly_once, run_ends_clean) hold for variants with v_pushback_asleep_only = true (the current code; probed from goroutines.js on every run) and for the non-suspending machine only",
+               "integer conversions of out-of-range constants have no run-time guard (rejected by go/types)",
+               "guard operands are integers produced by the compiler's %f formatting; comparisons are exact below 2^53 and order-preserving above",
                "constant indices into arrays are range-checked by go/types at compile time (no guard is emitted)",
                "run-time error message texts are compared by prefix only",
                "int8/int16 MinInt / -1 is excluded from the division grid (value defect F8 belongs to C06)"]
@@ -265,6 +268,150 @@ def guards_stub(ctx):
     ctx.cov["a1_stub_cases"] = len(cases)
     ctx.cov["a1_stub_panics"] = nthrow
     ctx.sample(dict(kind="a1", op=cases[5][0], args=cases[5][1], impl=results[5]))
+
+
+
+# ---------------------------------------------------------------- A4 (phase 4): guards on the shape of a value
+
+A4_COQ_OP = {"map_store": 11, "map_read": 12, "ptr_get": 13, "ptr_set": 14, "assert": 15}
+A4_MSG = {"map_store": "assignment to entry in nil map", "ptr_get": "invalid memory address or nil pointer dereference",
+          "ptr_set": "invalid memory address or nil pointer dereference", "assert": "TAE:"}
+A4_VALUE_METHODS = [[], [], [], [], [100]]            # method identities of the palette's dynamic types (c08_guards.js assertPalette)
+A4_IFACE_METHODS = [[], [100], [100, 101]]            # {} / {M} / {M, N}
+A4_METHOD_NAME = {100: "M", 101: "N"}
+
+
+def a4_emitted_code():
+    """the JavaScript the compiler emits for a map store / map read, instantiated from the format strings in the source"""
+    st = open(os.path.join(C.REPO, "compiler", "statements.go")).read()
+    ex = open(os.path.join(C.REPO, "compiler", "expressions.go")).read()
+    m = re.search(r"`([^`]*assignment to entry in nil map[^`]*)`", st)
+    if not m or m.group(1).count("%s") != 7:
+        raise C.BuildError("C08: cannot extract the nil-map store statement from statements.go (shape changed) — theorems no longer tied")
+    store = m.group(1) % ("_key", "k", "m", "$Int", "_key", "_key", "v")
+    forms = re.findall(r"`(\(%1s = \$mapIndex\([^`]*)`", ex)
+    tup = [f for f in forms if "true]" in f]
+    pla = [f for f in forms if "true]" not in f]
+    if len(tup) != 1 or len(pla) != 1:
+        raise C.BuildError("C08: cannot extract the $mapIndex read expressions from expressions.go (shape changed) — theorems no longer tied")
+
+    def inst(f):
+        return f.replace("%1s", "_entry").replace("%2e", "m").replace("%3s", "$Int.keyFor(k)").replace("%4e", "0")
+    return ("(function(m, k, v) { var _key; %s return m; })" % store,
+            "(function(m, k) { var _entry; return [%s, %s]; })" % (inst(pla[0]), inst(tup[0])))
+
+
+def a4_cases(r, quick):
+    cs = []
+    maps = [[], [1, 5], [1, 5, 2, 6, 3, 7]]
+    for isnil in (0, 1):
+        for l in (maps if not isnil else [[]]):
+            for k in [-1, 0, 1, 2, 3, 4, MAXINT]:
+                cs.append(("map_read", [isnil, k] + l))
+                for v in (0, 9):
+                    cs.append(("map_store", [isnil, k, v] + l))
+    for n in range(1, 5):
+        fs = [10, 11, 12, 13][:n]
+        for isnil in (0, 1):
+            for i in range(0, n + 1):
+                cs.append(("ptr_get", [isnil, n, i] + (fs if not isnil else [])))
+                if i < n:
+                    cs.append(("ptr_set", [isnil, n, i, 99] + (fs if not isnil else [])))
+    for tup in (0, 1):
+        for tkind, nt in ((0, 5), (1, 3)):
+            for tt in range(nt):
+                ims = A4_IFACE_METHODS[tt] if tkind else []
+                cs.append(("assert", [tup, 1, 0, 0, tkind, tt, 0] + ims))
+                for vt in range(5):
+                    for pl in ((7, 0) if not quick else (r.choice([7, 0, 3]),)):
+                        vms = A4_VALUE_METHODS[vt]
+                        cs.append(("assert", [tup, 0, vt, pl, tkind, tt, len(vms)] + vms + ims))
+    return cs
+
+
+def a4_spec(op, a):
+    """the Go specification, written independently of the Coq model -> (expected result, expected message suffix or None)"""
+    if op == "map_store":
+        if a[0]:
+            return "panic", None
+        d = {}
+        for j in range(3, len(a) - 1, 2):
+            d[a[j]] = a[j + 1]
+        d[a[1]] = a[2]                     # dict keeps insertion order, like Map
+        return [x for kv in d.items() for x in kv], None
+    if op == "map_read":
+        d = {} if a[0] else {a[j]: a[j + 1] for j in range(2, len(a) - 1, 2)}
+        return ([d[a[1]], 1] if a[1] in d else [0, 0]), None
+    if op == "ptr_get":
+        if a[2] >= a[1]:
+            return [], None                # no such field: not expressible in Go; only model vs real is compared
+        return ("panic" if a[0] else [a[3 + a[2]]]), None
+    if op == "ptr_set":
+        if a[0]:
+            return "panic", None
+        fs = list(a[4:])
+        fs[a[2]] = a[3]
+        return fs, None
+    if op == "assert":
+        tup, vnil, vt, pl, tkind, tt, nvm = a[:7]
+        vms, ims = a[7:7 + nvm], a[7 + nvm:]
+        holds = (not vnil) and ((vt == tt) if not tkind else all(m_ in vms for m_ in ims))
+        if holds:
+            return ([pl, 1] if tup else [pl]), None
+        missing = ""
+        if tkind and not vnil:
+            missing = A4_METHOD_NAME[[m_ for m_ in ims if m_ not in vms][0]]
+        return ([0, 0] if tup else "panic"), missing
+    raise ValueError(op)
+
+
+def guards_shape(ctx):
+    r = ctx.rng("a4")
+    store_code, read_code = a4_emitted_code()
+    cases = [("map_zero", [])] + a4_cases(r, ctx.quick)
+    code = {"map_store": store_code, "map_read": read_code}
+    rc, out, err = C.sh2(["node", os.path.join(C.JS, "c08_guards.js"), C.REPO],
+                         inp=json.dumps([dict(op=o, a=a, code=code.get(o)) for o, a in cases]).encode(), timeout=300)
+    if rc != 0:
+        if infra(rc, err):
+            return note_skip(ctx, "c08_guards.js (A4): rc=%s %s" % (rc, err[-150:]))
+        raise C.BuildError("c08_guards.js failed (A4): " + err[-600:])
+    results = json.loads(out)
+    gcases, idxmap, nthrow = [], [], 0
+    for i, ((op, a), res) in enumerate(zip(cases, results)):
+        got = "panic" if "throw" in res else (res.get("ok") if "ok" in res else "jserr:" + res.get("jserr", "?"))
+        if op == "map_zero":
+            if got != [1]:
+                ctx.violation("nil-map-value-is-not-false", "the zero value of a map type is no longer `false`: the emitted `(m || throw)` guard is not tied to the model any more",
+                              dict(kind="a4", op=op, impl=got), concrete=False)
+            continue
+        ctx.count(["a4", op, a], nontrivial=(op != "assert" and bool(a[0])) or (op == "assert" and (bool(a[1]) or a[2] == a[5] or bool(a[4]))))
+        want, missing = a4_spec(op, a)
+        nthrow += got == "panic"
+        rep = dict(kind="a4", op=op, args=a, impl=got, spec=want, emitted=code.get(op))
+        if got != want:
+            sig = "guard-%s-%s" % (op.replace("_", "-"), "missing-panic" if want == "panic" else ("spurious-panic" if got == "panic" else "wrong-value"))
+            ctx.violation(sig, "%s%r: the real runtime gives %r, the Go specification requires %r" % (op, a, got, want), rep)
+        elif got == "panic" and not res["throw"].startswith(A4_MSG[op]):
+            ctx.violation("guard-%s-wrong-message" % op.replace("_", "-"), "%s%r panics with %r" % (op, a, res["throw"]), rep)
+        elif got == "panic" and op == "assert" and res["throw"] != "TAE:" + missing:
+            ctx.violation("type-assertion-error-names-wrong-missing-method", "assert%r: TypeAssertionError names missing method %r, expected %r" % (a, res["throw"][4:], missing), rep)
+        if not str(got).startswith("jserr"):
+            gcases.append("{| g_op := %d; g_args := %s; g_expect := %s |}" % (A4_COQ_OP[op], zl(a), "GThrow" if got == "panic" else "GOk " + zl(got)))
+            idxmap.append(i)
+    res, log = coq_eval(ctx, "a4", "Definition cases : list gcase := [\n" + ";\n".join(gcases) + "].\n", [("M", "gmismatches2 cases")])
+    if res is None:
+        if infra(None, log):
+            note_skip(ctx, "Coq evaluation (A4): " + log[-120:])
+        else:
+            ctx.violation("model-eval-failed", "Coq evaluation of the shape-guard model failed", dict(log=log), concrete=False)
+    else:
+        for k in res["M"]:
+            op, a = cases[idxmap[k]]
+            ctx.violation("guard-model-mismatch", "Coq guard model (C08_Guards2) and the real runtime disagree on %s%r" % (op, a),
+                          dict(kind="a4", op=op, args=a, impl=results[idxmap[k]]), concrete=False)
+    ctx.cov["a4_shape_guard_cases"] = len(cases) - 1
+    ctx.cov["a4_shape_guard_panics"] = nthrow
 
 
 # ---------------------------------------------------------------- A2: table-driven program
@@ -548,6 +695,63 @@ SEEDS = [
 ]
 
 
+ONCE_PUSH, ONCE_RUN = 2000, 1000
+
+
+def mark_once(prog):
+    """phase 4: make every deferred closure observable — `println` a push marker right before the defer statement and a run
+    marker as the first statement of the closure — so that exactly-once can be decided on the REAL trace alone"""
+    cnt = [0]
+
+    def mb(body):
+        out = []
+        for s in body:
+            if s[0] == "deferclo":
+                cnt[0] += 1
+                k = cnt[0]
+                out.append(("trace", ONCE_PUSH + k))
+                out.append(("deferclo", [("trace", ONCE_RUN + k)] + mb(s[1])))
+            elif s[0] == "callclo":
+                out.append(("callclo", mb(s[1])))
+            else:
+                out.append(s)
+        return out
+    return [mb(b) for b in prog]
+
+
+def once_violations(events):
+    """independent oracle for defer_lifo_exactly_once on an observed trace: every push marker is matched by exactly one later run
+    marker of the same closure (Go runs pending deferred calls on normal return, panic — also a fatal one — and Goexit)"""
+    pend = {}
+    for e in events:
+        if e[0] == "trace" and e[1] > ONCE_PUSH:
+            pend[e[1] - ONCE_PUSH] = pend.get(e[1] - ONCE_PUSH, 0) + 1
+        elif e[0] == "trace" and e[1] > ONCE_RUN:
+            k = e[1] - ONCE_RUN
+            if pend.get(k, 0) <= 0:
+                return "deferred closure #%d ran without a pending push (ran twice?)" % k
+            pend[k] -= 1
+    left = sorted(k for k, v in pend.items() if v)
+    return ("deferred closure(s) %s pushed but never run" % left) if left else None
+
+
+def b_once_programs(r, quick):
+    """marked programs without really suspending statements (the theorem is about the non-suspending machine)"""
+    n = 30 if quick else 300
+    progs = []
+    for s in SEEDS:
+        if len(progs) < n // 3 and not any(G.count_kind(b, "block") for b in s):
+            progs.append((mark_once(s), FLAVOURS[len(progs) % 2]))
+    while len(progs) < n:
+        fl = r.choice(FLAVOURS[:2])
+        kinds = r.sample(G.KINDS, r.randint(1, 3)) if fl["msg"] else [r.choice(G.NONBLOCKING_KINDS)]
+        p = G.gen_program(r, dict(goexit=r.random() < 0.3, kinds=kinds, calm=r.choice([0.15, 0.5, 1.0]), block=0.0))
+        if sum(G.count_kind(b, "deferclo") for b in p) == 0:
+            continue
+        progs.append((mark_once(p), fl))
+    return progs
+
+
 def b_programs(r, quick):
     n = int(os.environ.get("C08_DEV_N", "0")) or (180 if quick else 2000)
     progs = []
@@ -585,6 +789,9 @@ B_CLASS_SIG = {
 def defer_programs(ctx):
     r = ctx.rng("b")
     progs = b_programs(r, ctx.quick)
+    n_plain = len(progs)
+    progs = progs + b_once_programs(ctx.rng("b-once"), ctx.quick)      # phase 4: marked programs, same pipeline + the exactly-once oracle
+    once_checked = 0
 
     def one(i):
         try:
@@ -640,6 +847,12 @@ def defer_programs(ctx):
         dist["events"] += len(gev)
         dist["recovered_values"] += sum(1 for e in gev if e[0] == "rec" and e[1] is not None)
         rep.update(impl=dict(trace=jev, final=jfin), native=dict(trace=gev, final=gfin), raw=res["raw"])
+        if i >= n_plain and not jprob:
+            # phase 4: defer_lifo_exactly_once decided on the real trace alone (and on native Go's, as a check of the oracle)
+            once_checked += 1
+            bad_once = once_violations(jev)
+            if bad_once and not once_violations(gev):
+                ctx.violation("deferred-call-not-run-exactly-once", "compiled program: " + bad_once, rep)
         if gprob:
             # the reference run itself was not understood: nothing can be concluded about the implementation
             note_skip(ctx, "defer program %d: native Go output not understood (%s): %s" % (i, gprob[0][0], gprob[0][1][:100]))
@@ -669,7 +882,7 @@ def defer_programs(ctx):
     def run_shard(s):
         k, cs = s
         return k, len(cs), coq_eval(ctx, "b_%d" % k, "Definition cases : list bcase := [\n" + ";\n".join(cs) + "].\n",
-                                    [("MI", "bmismatches_impl cases"), ("MS", "bmismatches_spec cases"), ("CL", "bclasses cases"), ("BF", "bblockflags cases"), ("BG", "bblockflags2 cases"), ("BH", "bblockflags3 cases")])
+                                    [("MI", "bmismatches_impl cases"), ("MS", "bmismatches_spec cases"), ("CL", "bclasses cases"), ("BF", "bblockflags cases"), ("BG", "bblockflags2 cases"), ("BH", "bblockflags3 cases"), ("UC", "bunclean cases")])
     impl_bad, spec_bad, evaluated, blockflag, blockflag2, blockflag3 = set(), set(), set(), set(), set(), set()
     for k, n, (res, log) in C.parallel_map(run_shard, shards):
         if res is None:
@@ -683,6 +896,10 @@ def defer_programs(ctx):
         blockflag |= {idxmap[k + j] for j in res["BF"]}
         blockflag2 |= {idxmap[k + j] for j in res["BG"]}
         blockflag3 |= {idxmap[k + j] for j in res["BH"]}
+        for j in res["UC"]:
+            # cannot happen while the proofs hold (C08_run_ends_clean); reported if the model or the variant flags drift
+            ctx.violation("implpanic-final-state-not-clean", "ImplPanic ends with a pending deferred call, a queued panic, a non-empty deferStack or a shifted $stackDepthOffset",
+                          dict(kind="b", program=progs[idxmap[k + j]][0], flavour=progs[idxmap[k + j]][1]["name"]), concrete=False)
         for j, c in enumerate(res["CL"]):
             results[idxmap[k + j]]["_class"] = c
             evaluated.add(idxmap[k + j])
@@ -738,6 +955,7 @@ def defer_programs(ctx):
     dist["programs_differing_from_go_as_predicted"] = nknown
     ctx.cov["b_distribution"] = dist
     ctx.cov["b_programs"] = len(progs)
+    ctx.cov["b_marked_programs_exactly_once_oracle"] = once_checked
     ctx.cov["b_programs_validated_against_both_models"] = len(evaluated)
 
 
@@ -748,6 +966,8 @@ def correspond(ctx):
     if "A" in phases:
         guards_stub(ctx)
         ctx.log("A1 prelude guards done")
+        guards_shape(ctx)
+        ctx.log("A4 shape guards done")
         guards_program(ctx)
         ctx.log("A2 guard program done")
         palette(ctx)
@@ -808,7 +1028,7 @@ LEVEL_TEXT = ("Part A: for every guard (index incl. strings, 2/3-index slice, st
               "is equivalent to 'called directly by the deferred function the panic sequence invoked'; on 334 408 exhaustively enumerated programs (nested "
               "defers, recover at several depths, replaced panics, re-panic, named results, Goexit across frames and mixed with panics) ImplPanic of the current "
               "tree equals SpecPanic and every pushed deferred call runs exactly once. Both models are tied to /repo on every run.")
-LEVEL_NOTE = ("Proofs are about hand-written models; the tie is differential (real vs ImplPanic and native Go vs SpecPanic must agree on every generated program). "
+LEVEL_NOTE = ("Phase 4: defer_lifo_exactly_once is now UNBOUNDED for the non-suspending machine (C08_defer_lifo_exactly_once = the former full statement, for V_FULL and every asleep-only variant), via a proved stack-shape invariant of ImplPanic (C08_activation_restores_stack_shape, C08_epilogue_pops_own_frame, C08_panic_never_returns, C08_run_ends_clean); it is tied by marked programs whose real trace is decided by an exactly-once oracle. impl_refines_spec_panic and recover_legal_iff remain _partial (enumerated / numeric depth test): the $panicStackDepth-vs-l_rk half of the simulation is not proved. New part-A guards (nil map store/read, nil struct pointer get/set, $assertType panicking and comma-ok) have guard_fires_iff_spec theorems and a 228-case grid on the real prelude with the emitted JS instantiated from the compiler's format strings. Proofs are about hand-written models; the tie is differential (real vs ImplPanic and native Go vs SpecPanic must agree on every generated program). "
               "impl_refines_spec_panic, completeness of defer_lifo_once and recover_legal_iff are _partial (bounded enumeration / arithmetic core): no unbounded "
               "simulation proof. Suspension (a deferred call that blocks) is outside the models; generated programs exercise it against native Go, where two "
               "recorded findings remain.")
